@@ -606,6 +606,15 @@ func (ex *Exec) applyContract(fr *Frame, c *FuncContract, callee *ssa.Function, 
 				ex.havocAll(st, false)
 			}
 		}
+	} else if len(c.Modifies) == 1 && c.Modifies[0] == "reachable" {
+		// library function: only the objects its arguments designate directly may change
+		for i, a := range args {
+			var at types.Type
+			if i < len(ptypes) {
+				at = ptypes[i]
+			}
+			ex.havocReachable(st, a, at)
+		}
 	} else {
 		ws := ex.resolveModifies(c, env)
 		ex.applyHavoc(st, ws)
